@@ -288,6 +288,39 @@ REDEFINED_AT_PIN = {
 }
 
 
+def _coerced_param_table(fn, dname, key, p):
+    import ast
+    defs = [a for a in ast.walk(fn) if isinstance(a, ast.Assign) and any(isinstance(t, ast.Name) and t.id == dname for t in a.targets)]
+    if len(defs) != 1 or not isinstance(defs[0].value, ast.Dict) or not isinstance(key, ast.Constant):
+        return False
+    ent = [v_ for k_, v_ in zip(defs[0].value.keys, defs[0].value.values) if isinstance(k_, ast.Constant) and k_.value == key.value]
+    if len(ent) != 1 or not (isinstance(ent[0], ast.Name) and ent[0].id == p):
+        return False
+    for a in ast.walk(fn):
+        tg = a.targets if isinstance(a, ast.Assign) else [a.target] if isinstance(a, ast.AugAssign) else []
+        for t in tg:
+            if isinstance(t, ast.Subscript) and isinstance(t.value, ast.Name) and t.value.id == dname:
+                if isinstance(a, ast.AugAssign):
+                    return False
+                lp = getattr(a, "_parent", None)
+                while lp is not None and not isinstance(lp, (ast.For, ast.FunctionDef)):
+                    lp = getattr(lp, "_parent", None)
+                ok = isinstance(lp, ast.For) and isinstance(lp.target, ast.Tuple) and len(lp.target.elts) == 2 and all(isinstance(e, ast.Name) for e in lp.target.elts) \
+                    and isinstance(lp.iter, ast.Call) and isinstance(lp.iter.func, ast.Attribute) and lp.iter.func.attr == "items" \
+                    and isinstance(lp.iter.func.value, ast.Name) and lp.iter.func.value.id == dname
+                if not ok:
+                    return False
+                kv, vv = (e.id for e in lp.target.elts)
+                val = a.value
+                if not (isinstance(t.slice, ast.Name) and t.slice.id == kv and isinstance(val, ast.Call)
+                        and (call_name(val) or "").split(".")[-1] in _COERCERS and val.args and isinstance(val.args[0], ast.Name) and val.args[0].id == vv):
+                    return False
+        if isinstance(a, ast.Call) and isinstance(a.func, ast.Attribute) and isinstance(a.func.value, ast.Name) and a.func.value.id == dname \
+                and a.func.attr in ("update", "pop", "popitem", "clear", "setdefault", "__setitem__"):
+            return False
+    return True
+
+
 def _control_param_redefinitions(fi):
     """(statement, parameter) for every redefinition of a control (scalar-like) parameter that is neither a coercion of itself, nor the
     filling-in of a default, nor a step of a data pipeline on a data-like parameter."""
@@ -329,6 +362,10 @@ def _control_param_redefinitions(fi):
                     continue
                 # coercion of itself
                 if isinstance(v, ast.Call) and (call_name(v) or "").split(".")[-1] in _COERCERS and v.args and unparse(v.args[0]) == p:
+                    continue
+                # p = D["p"] with D = {"p": p, ..} a local table whose only other stores coerce each entry in place
+                # (for k, x in D.items(): D[k] = np.array(x)): the value is still the caller's
+                if isinstance(v, ast.Subscript) and isinstance(v.value, ast.Name) and _coerced_param_table(fi.node, v.value.id, v.slice, p):
                     continue
                 if isinstance(v, (ast.List, ast.Tuple)) and len(v.elts) == 1 and unparse(v.elts[0]) == p:
                     continue        # p = [p]
